@@ -308,6 +308,8 @@ def run_property(modname, tier='quick', seed=0, rebaseline=False, only=None, can
     module = importlib.import_module('contracts.' + modname)
     pid = module.PROPERTY
     rep = Report(pid, tier, seed)
+    import shutil
+    shutil.rmtree(os.path.join(VERIF, 'evidence', 'replay', pid), ignore_errors=True)
     timeout_ms = int(os.environ.get('LIANVC_VC_TIMEOUT_MS', '10000' if tier == 'quick' else '60000'))
     try:
         reg = module.build()
